@@ -350,13 +350,10 @@ fn param_lists(kinds: &[Option<Vec<Tok>>], lens: std::ops::RangeInclusive<usize>
     out
 }
 
-fn defs_for_strings(thorough: bool) -> Vec<DefSpec> {
+fn defs_for_strings(three: bool) -> Vec<DefSpec> {
     let mut v = vec![];
     let prefixes = [vec![], vec![A], vec![A, B]];
-    let mut lists = param_lists(&delims_full(), 0..=2);
-    if thorough {
-        lists.extend(param_lists(&delims_small(), 3..=3));
-    }
+    let lists = if three { param_lists(&delims_small(), 3..=3) } else { param_lists(&delims_full(), 0..=2) };
     for prefix in &prefixes {
         for params in &lists {
             for hash in [false, true] {
@@ -589,19 +586,19 @@ fn main() {
     let f1_maxlen: usize = ctx.pick(5, 7);
 
     // F1: every call string over the 7-token alphabet against every parameter text
-    {
-        let specs = defs_for_strings(thorough);
+    for three in [false, true] {
+        let specs = defs_for_strings(three);
         let defs = build_ctxs(specs, &mut ctx);
-        let maxlen = f1_maxlen as u32;
+        let maxlen = if three { ctx.pick(4u32, 6u32) } else { f1_maxlen as u32 };
         let ncalls = vcore::strings_upto(7, maxlen);
         let n = defs.len() as u64 * ncalls;
         let dref = &defs;
         ctx.family(
-            "calls-all-strings",
+            if three { "calls-all-strings-3-parameters" } else { "calls-all-strings" },
             &format!(
-                "{} definitions (prefix in {{-, a, ab}} x 0-2 parameters each undelimited or delimited by . / ab / aa / a. / \\x / space{} x with/without the trailing #{{ form; body [#1][#2]..) x every token string of length <= {maxlen} over {{a b . {{ }} space \\x}} ({ncalls} strings, unbalanced ones included), followed by \\relax Z",
+                "{} definitions (prefix in {{-, a, ab}} x {} x with/without the trailing #{{ form; body [#1][#2]..) x every token string of length <= {maxlen} over {{a b . {{ }} space \\x}} ({ncalls} strings, unbalanced ones included), followed by \\relax Z",
                 defs.len(),
-                if thorough { "; 3 parameters over {undelimited . ab aa}" } else { "" }
+                if three { "3 parameters each undelimited or delimited by . / ab / aa" } else { "0-2 parameters each undelimited or delimited by . / ab / aa / a. / \\x / space" }
             ),
             n,
             |i, acc| {
